@@ -55,6 +55,9 @@ def lookAlike (names : List String) : Bool :=
 
 def treeTags (r : T) (bs : List T) : List String :=
   tagIf (lookAlike r.tipNames) "look-alike-tip-names" ++
+  tagIf (bs.any fun b => b.splits.any fun s => !s.tip && s.e.len == 0) "boot-inner-zero-length" ++
+  tagIf (bs.any fun b => b.splits.any fun s => !s.tip && s.e.len == NIL) "boot-inner-no-length" ++
+  tagIf (r.splits.any fun s => !s.tip && s.e.len == 0) "ref-inner-zero-length" ++
   tagIf r.rooted "ref-rooted" ++ tagIf (!r.rooted) "ref-unrooted" ++
   tagIf (r.kids.any (·.2.isLeaf)) "ref-roottip" ++
   tagIf (r.rooted && r.kids.any (·.2.isLeaf)) "ref-rooted-roottip" ++
